@@ -51,6 +51,12 @@ impl Reporter {
         }
     }
 
+    /// Verification hook: the merged per-client statistics currently held by the reporter.
+    #[cfg(roughenough_verif)]
+    pub fn client_stats_verif(&self) -> Vec<ClientStats> {
+        self.client_stats.values().copied().collect()
+    }
+
     pub fn processing_loop(&mut self, keep_running: &AtomicBool) {
         while keep_running.load(Ordering::Relaxed) {
             self.receive_client_stats();
